@@ -4,7 +4,15 @@ From Coq Require Import Strings.Byte.
 From Coq Require Import List NArith Sorted.
 From Goit Require Import Bytes Tree Index IndexFacts.
 From Goit Require Import Obj World Repo Inv SnapshotFacts.
+From Goit Require Import Bridge.
 Import ListNotations.
+
+(* T0 (tie to the source): every regexp literal of the current Go source denotes
+   the same language, with the same anchoring, as the pattern of the model — proved
+   by running the verified equivalence checker on SrcRegex.v, which is regenerated
+   from /repo on every run (see Bridge.v) *)
+Theorem C06_source_patterns_are_the_models : source_patterns_agree.
+Proof. exact source_patterns. Qed.
 
 (* T1: the file codec is lossless for every list of well-formed entries *)
 Theorem C06_index_roundtrip : forall es,
@@ -83,3 +91,4 @@ Print Assumptions C06_is_dir_iff.
 Print Assumptions C06_under_dir_spec.
 Print Assumptions C06_entries_by_dir_exact.
 Print Assumptions C06_staging_area_canonical_on_every_history.
+Print Assumptions C06_source_patterns_are_the_models.
